@@ -368,15 +368,16 @@ theorem scan_ok (d : D) (hwf : WFD d) (hn : NoParen d) (s : PState) (rest : List
 scan finds the identifier, `_reset(mark)` goes back to the first token, and the declarator comes
 back as `parse_declarator` says -/
 theorem anyDeclarator_ok (d : D) (hwf : WFD d) (hn : NoParen d) (s : PState) (rest : List Tk)
-    (hs : SeesT env s (d.flat ++ rest)) (hfo : FollowD rest) (F : Nat) (hF : d.fuel + starsNtoks (dStars d) + 5 ≤ F) :
-    ∃ s', run F (.anyDeclarator false false) s = .ok (chainVal (d.chain s.idx) (d.td s.idx), true) s' ∧
+    (hs : SeesT env s (d.flat ++ rest)) (hfo : FollowD rest) (F : Nat) (hF : d.fuel + starsNtoks (dStars d) + 5 ≤ F)
+    (allowAbstract typeidParenAsAbstract : Bool := false) :
+    ∃ s', run F (.anyDeclarator allowAbstract typeidParenAsAbstract) s = .ok (chainVal (d.chain s.idx) (d.td s.idx), true) s' ∧
       SeesT env s' rest ∧ s'.idx = s.idx + d.ntoks := by
   obtain ⟨G, rfl⟩ : ∃ G, F = G + 1 := ⟨F - 1, by omega⟩
   obtain ⟨s3, hscan, s4, h4, hs4, hi4⟩ := scan_ok d hwf hn s rest hs G (by omega)
   obtain ⟨s5, h5, hs5, hi5⟩ := parse_declarator d hwf s4 rest hs4 hfo G (by omega)
   refine ⟨s5, ?_, hs5, by omega⟩
   rw [hi4] at h5
-  show pAnyDeclarator (run G) false false s = _
+  show pAnyDeclarator (run G) allowAbstract typeidParenAsAbstract s = _
   simp [pAnyDeclarator, DeclSkel.bnd, mark, hscan, h4, h5, DeclSkel.pur]
 
 /-! ## init-declarators -/
